@@ -89,6 +89,17 @@ class Func:
         for n in own_nodes(node):
             if isinstance(n, ast.Global):
                 self.declared_global.update(n.names)
+        self.local_imports = {}
+        for n in own_nodes(node):
+            if isinstance(n, ast.Import):
+                for al in n.names:
+                    if al.asname:
+                        self.local_imports[al.asname] = (al.name, None)
+                    else:
+                        self.local_imports[al.name.split(".")[0]] = (al.name.split(".")[0], None)
+            elif isinstance(n, ast.ImportFrom) and not n.level:
+                for al in n.names:
+                    self.local_imports[al.asname or al.name] = (n.module or "", al.name)
         self.locals = set(self.params)
         for n in own_nodes(node):
             for t in binding_targets(n):
